@@ -420,6 +420,12 @@ class SimClock(object):
 
 # ------------------------------------------------------------------ solver
 
+SLSQP_MODES = {2: 'More equality constraints than independent variables', 3: 'More than 3*n iterations in LSQ subproblem',
+               4: 'Inequality constraints incompatible', 5: 'Singular matrix E in LSQ subproblem',
+               6: 'Singular matrix C in LSQ subproblem', 7: 'Rank-deficient equality constraint subproblem HFTI',
+               8: 'Positive directional derivative for linesearch', 9: 'Iteration limit reached'}
+
+
 class SimSolver(object):
     """Wraps pmutt.equilibrium._equilibrium.minimize with an outcome policy."""
 
@@ -453,6 +459,48 @@ class SimSolver(object):
                 kw = dict(kw, options=opts)
                 res = real(*a, **kw)
                 sim.ctx.faults['solver_early_stop'] += 1
+            elif pol['kind'] == 'fail_status':
+                # the routine gives up with one of SLSQP's failure exit modes at a point that is not the optimum:
+                # 'cap'  - where the real iteration stands after n steps (status re-labelled),
+                # 'null' - the optimum displaced along a direction that keeps every linear constraint satisfied
+                import numpy as _np
+                if pol.get('how', 'cap') == 'cap':
+                    opts = dict(kw.get('options') or {})
+                    opts['maxiter'] = int(pol.get('n', 3))
+                    res = real(*a, **dict(kw, options=opts))
+                    changed = not res.success
+                else:
+                    res = real(*a, **kw)
+                    changed = False
+                    con = kw.get('constraints')
+                    con = con[0] if isinstance(con, (list, tuple)) else con
+                    x = _np.asarray(res.x, dtype=float)
+                    try:
+                        J = _np.atleast_2d(_np.asarray(con['jac'](x), dtype=float))
+                        u, sv, vt = _np.linalg.svd(J)
+                        rank = int((sv > 1e-10 * max(sv.max(), 1e-300)).sum())
+                        if rank < vt.shape[0]:
+                            z = vt[rank]
+                            lo = _np.array([b_[0] for b_ in kw['bounds']], dtype=float)
+                            hi = _np.array([b_[1] for b_ in kw['bounds']], dtype=float)
+                            best = 0.0
+                            for sign in (1.0, -1.0):
+                                zz = sign * z
+                                with _np.errstate(divide='ignore', invalid='ignore'):
+                                    t = _np.where(zz > 0, (hi - x) / zz, _np.where(zz < 0, (lo - x) / zz, _np.inf))
+                                tmax = float(_np.min(t))
+                                if tmax > abs(best):
+                                    best = sign * tmax
+                            if abs(best) > 0:
+                                res.x = x + float(pol.get('frac', 0.5)) * best * z
+                                changed = True
+                    except Exception:
+                        changed = False
+                if changed:
+                    res.success = False
+                    res.status = int(pol['status'])
+                    res.message = SLSQP_MODES.get(res.status, 'simulated failure')
+                    sim.ctx.faults['solver_exit_mode_%d' % res.status] += 1
             elif pol['kind'] == 'raise':
                 sim.ctx.faults['solver_raise'] += 1
                 sim.last_result = 'raised'
